@@ -236,13 +236,34 @@ impl<Base: Image> Artifact<Base> {
         bail!("Layer of digest {} not found", digest)
     }
 
+    /// Get the layer of given digest and media type.
+    ///
+    /// Layers of different media types can share a digest when their contents are the same bytes
+    /// (e.g. an empty [v1::State] and an empty [v1::Instance]), so the media type takes part in the lookup.
+    fn get_typed_layer(
+        &mut self,
+        digest: &Digest,
+        media_type: &MediaType,
+        name: &str,
+    ) -> Result<(Descriptor, Vec<u8>)> {
+        let mut other = None;
+        for (desc, blob) in self.0.get_layers()? {
+            if desc.digest() == &digest.to_string() {
+                if desc.media_type() == media_type {
+                    return Ok((desc, blob));
+                }
+                other.get_or_insert(desc);
+            }
+        }
+        match other {
+            Some(desc) => bail!("Layer {digest} is not an {name}: {}", desc.media_type()),
+            None => bail!("Layer of digest {} not found", digest),
+        }
+    }
+
     pub fn get_solution(&mut self, digest: &Digest) -> Result<(v1::State, SolutionAnnotations)> {
-        let (desc, blob) = self.get_layer(digest)?;
-        ensure!(
-            desc.media_type() == &media_types::v1_solution(),
-            "Layer {digest} is not an ommx.v1.Solution: {}",
-            desc.media_type()
-        );
+        let (desc, blob) =
+            self.get_typed_layer(digest, &media_types::v1_solution(), "ommx.v1.Solution")?;
         Ok((
             v1::State::decode(blob.as_slice())?,
             SolutionAnnotations::from_descriptor(&desc),
@@ -253,12 +274,8 @@ impl<Base: Image> Artifact<Base> {
         &mut self,
         digest: &Digest,
     ) -> Result<(v1::SampleSet, SampleSetAnnotations)> {
-        let (desc, blob) = self.get_layer(digest)?;
-        ensure!(
-            desc.media_type() == &media_types::v1_sample_set(),
-            "Layer {digest} is not an ommx.v1.SampleSet: {}",
-            desc.media_type()
-        );
+        let (desc, blob) =
+            self.get_typed_layer(digest, &media_types::v1_sample_set(), "ommx.v1.SampleSet")?;
         Ok((
             v1::SampleSet::decode(blob.as_slice())?,
             SampleSetAnnotations::from_descriptor(&desc),
@@ -266,12 +283,8 @@ impl<Base: Image> Artifact<Base> {
     }
 
     pub fn get_instance(&mut self, digest: &Digest) -> Result<(v1::Instance, InstanceAnnotations)> {
-        let (desc, blob) = self.get_layer(digest)?;
-        ensure!(
-            desc.media_type() == &media_types::v1_instance(),
-            "Layer {digest} is not an ommx.v1.Instance: {}",
-            desc.media_type()
-        );
+        let (desc, blob) =
+            self.get_typed_layer(digest, &media_types::v1_instance(), "ommx.v1.Instance")?;
         Ok((
             v1::Instance::decode(blob.as_slice())?,
             InstanceAnnotations::from_descriptor(&desc),
@@ -282,12 +295,11 @@ impl<Base: Image> Artifact<Base> {
         &mut self,
         digest: &Digest,
     ) -> Result<(v1::ParametricInstance, ParametricInstanceAnnotations)> {
-        let (desc, blob) = self.get_layer(digest)?;
-        ensure!(
-            desc.media_type() == &media_types::v1_parametric_instance(),
-            "Layer {digest} is not an ommx.v1.ParametricInstance: {}",
-            desc.media_type()
-        );
+        let (desc, blob) = self.get_typed_layer(
+            digest,
+            &media_types::v1_parametric_instance(),
+            "ommx.v1.ParametricInstance",
+        )?;
         Ok((
             v1::ParametricInstance::decode(blob.as_slice())?,
             ParametricInstanceAnnotations::from_descriptor(&desc),
